@@ -4,7 +4,7 @@
 name=$1; shift
 props=${*:-C01 C02 C06 C07 C08 C09 C10 C11 C17 C18 C19 C20}
 git -C /repo apply --whitespace=nowarn /verif/benign/$name/patch.diff || { echo "PATCH-DOES-NOT-APPLY"; exit 2; }
-trap 'git -C /repo checkout -q -- . ; git -C /repo clean -fdq zlink-core/src zlink-tokio/src zlink-smol/src zlink-macros/src zlink/src' EXIT
+trap 'git -C /repo checkout -q -- . ; git -C /repo clean -fdq zlink-core/src zlink-tokio/src zlink-smol/src zlink-macros/src zlink/src; cd /verif && ./check build >/dev/null 2>&1' EXIT
 cd /verif
 for p in $props; do
   ./check $p quick --no-evidence > /tmp/benign_${name}_$p.log 2>&1; rc=$?
